@@ -56,7 +56,9 @@ chk("C05",
     "first mutation and at the end; L = sum of the reads; backward(). z3 decides for all real inputs that the .grad of every live "
     "tensor (leaves feeding assignments, views, mutated bases, intermediates) equals the derivative of the NumPy twin's L - an oracle "
     "that never runs MyGrad: overwritten elements simply no longer occur in the twin's term; for mutated tensors fresh cut variables "
-    "are written in place into the twin right after the last mutation of their memory owner.",
+    "are written in place into the twin right after the last mutation of their memory owner. Operation sweep: every C02 operation body, "
+    "one operand (or the intermediate `+operand` it consumes) updated in place AFTER the forward call, then backward(): all remaining "
+    "gradients must be those of the forward pass as computed (recurrent layer: first 3 paths of T=1; T=2 thorough).",
     "Trusted: reference differentiator; version rule 'a tensor's current value is the one after the last in-place statement whose "
     "target shares its memory (or .shape assignment to its memory owner)', which is the reading under which C06 (view grad = view of "
     "base grad) and C05 are jointly satisfiable.",
